@@ -455,6 +455,9 @@ def r6_inplace_returns(ctx):
 
 
 # ---------------------------------------------------------------------------------------------------
+USE_REAL_CLASS = True
+
+
 def r7_values(ctx):
     """join / stack / slice / atom_slice evaluated on model trajectories (sa/tensym.py): every array of the result is, element for element,
     what numpy indexing / concatenation of the operands' arrays gives; lengths travel with angles; the topology is the copy / join / subset
@@ -463,7 +466,27 @@ def r7_values(ctx):
     from ..poly import Poly, Rat
     A = 3
 
+    # Trajectory itself is instantiated from its source (constructor, property getters and setters evaluated by sa/tensym.py); what is
+    # summarised: ensure_type returns its argument (validation and casts do not change exact values), deepcopy gives a tagged copy
+    tmod = ctx.py.mod(TRAJ)
+    tcls = next((n for n in tmod.tree.body if isinstance(n, ast.ClassDef) and n.name == "Trajectory"), None)
+    if tcls is None:
+        raise AnalysisError("class Trajectory not found in %s" % TRAJ)
+    base_models = {"ensure_type": lambda ev, call: ev.ex(call.args[0]), "warnings.warn": lambda ev, call: None}
+
+    def real_ctor(xyz, topology, time=None, unitcell_lengths=None, unitcell_angles=None, **extra):
+        if extra:
+            raise TUnsupported("constructor called with unknown arguments %s" % sorted(extra))
+        ev0 = TenSym({}, models=dict(base_models, **models()))
+        ev0.classes = {"Trajectory": tcls}
+        o = ev0.instantiate("Trajectory", [xyz, topology], {"time": time, "unitcell_lengths": unitcell_lengths, "unitcell_angles": unitcell_angles})
+        o._built = True
+        o._ctor = real_ctor
+        return o
+
     def ctor(xyz, topology, time=None, unitcell_lengths=None, unitcell_angles=None, **extra):
+        if USE_REAL_CLASS:
+            return real_ctor(xyz, topology, time=time, unitcell_lengths=unitcell_lengths, unitcell_angles=unitcell_angles, **extra)
         if extra:
             raise TUnsupported("constructor called with unknown arguments %s" % sorted(extra))
         o = Obj(_xyz=xyz, _topology=topology, _time=time, _unitcell_lengths=unitcell_lengths, _unitcell_angles=unitcell_angles, _rmsd_traces=None, _isa=("Trajectory",), _built=True)
@@ -481,18 +504,21 @@ def r7_values(ctx):
     def traj(name, F, atoms=A, top=None, traces=False):
         top = top or Obj(tag=name + ".top")
         if not hasattr(top, "join"):
-            top.join = lambda other, keep_resSeq=True, _t=top: Obj(tag=("join", _t, other, keep_resSeq))
-            top.subset = lambda idx, _t=top: Obj(tag=("subset", _t, tuple(idx)))
+            top.join = lambda other, keep_resSeq=True, _t=top: Obj(tag=("join", _t, other, keep_resSeq), _numAtoms=(_t._numAtoms or 0) + (getattr(other, "_numAtoms", 0) or 0))
+            top.subset = lambda idx, _t=top: Obj(tag=("subset", _t, tuple(idx)), _numAtoms=len(tuple(idx)))
+        if not hasattr(top, "_numAtoms"):
+            top._numAtoms, top.n_atoms = atoms, atoms
         o = ctor(Ten.sym(name + ".x", (F, atoms, 3)), top, Ten.sym(name + ".t", (F,)), Ten.sym(name + ".len", (F, 3)), Ten.sym(name + ".ang", (F, 3)))
-        o.n_frames, o.n_atoms, o._have_unitcell = F, atoms, True
+        if not USE_REAL_CLASS:
+            o.n_frames, o.n_atoms, o._have_unitcell = F, atoms, True
+            o._ctor = ctor
         o._rmsd_traces = Ten.sym(name + ".tr", (F,)) if traces else None
-        o._ctor = ctor
         return o
 
     def models():
         def deepcopy(ev, call):
             v = ev.ex(call.args[0])
-            return Obj(tag=("copy", v))
+            return Obj(tag=("copy", v), _numAtoms=getattr(v, "_numAtoms", None))
 
         def construct(ev, call):
             return ctor(*[ev.ex(a) for a in call.args], **{k.arg: ev.ex(k.value) for k in call.keywords})
@@ -506,7 +532,13 @@ def r7_values(ctx):
 
     def fld(o, name):
         g = o.__dict__.get("_getters", {})
-        return g[name](o) if name in g else getattr(o, name)
+        if name in g:
+            return g[name](o)
+        if name in (o.__dict__.get("_props") or {}) and name not in o.__dict__:
+            ev_ = TenSym({"__o": o}, models=dict(base_models, **models()))
+            ev_.classes = {"Trajectory": tcls}
+            return ev_.ex(ast.parse("__o.%s" % name, mode="eval").body)
+        return getattr(o, name)
 
     def same(ev, got, want):
         if want is None or got is None:
